@@ -346,7 +346,8 @@ fn monitored_call(cs: &mut Case, last: Option<usize>, now: u64, cfg: &srtla_core
     if r != expected && !(near_threshold && (r == best || r == last)) {
         // near-ties between two best candidates within tolerance
         let tie_ok = match (r, expected) {
-            (Some(a), Some(b)) => scores.get(a).copied().flatten().zip(scores.get(b).copied().flatten()).is_some_and(|(x, y)| rel_eq(x, y) && x != y),
+            // equal scores (exactly or within tolerance): the property does not say which of them wins
+            (Some(a), Some(b)) => scores.get(a).copied().flatten().zip(scores.get(b).copied().flatten()).is_some_and(|(x, y)| rel_eq(x, y)),
             _ => false,
         };
         if !tie_ok {
